@@ -600,6 +600,28 @@ Fixpoint zdiv (w : wf) (c : chan) : bool :=
   | WArith l _ r => (inb c (channels l) && zdiv l c) || (inb c (channels r) && zdiv r c)
   end.
 
+(* does sampling channel c raise KeyError inside a transformation?  (static: whether Transformation.__call__ raises
+   depends only on the channel keys of the data it is given: a LinearTransformation that finds only some of its input
+   channels raises; also a requested channel missing from the transformed data) *)
+Definition t_point_fails (T : trafo) (ins : list chan) (c : chan) : bool :=
+  match t_point T 0 (map (fun ic => (ic, None)) ins) with
+  | None => true
+  | Some out => match lookup c out with Some _ => false | None => true end
+  end.
+Fixpoint kerr (w : wf) (c : chan) : bool :=
+  match w with
+  | WTable _ _ | WConst _ _ _ | WFunc _ _ _ => false
+  | WSeq l => (fix any (l : list wf) := match l with [] => false | x :: r => kerr x c || any r end) l
+  | WMulti l => (fix find (l : list wf) := match l with [] => false | x :: r => if inb c (channels x) then kerr x c else find r end) l
+  | WRep b _ => kerr b c
+  | WTrans i T => match t_in T [c] with
+                  | Some ins => existsb (kerr i) ins || t_point_fails T ins c
+                  | None => true
+                  end
+  | WSubset i _ | WFunctor i _ | WRev i => kerr i c
+  | WArith l _ r => (inb c (channels l) && kerr l c) || (inb c (channels r) && kerr r c)
+  end.
+
 (* ------------------------------------------------------------------------------------------------------------------ *)
 (* get_sampled (one call, no history): argument checks, constant short cut, unsafe_sample *)
 
@@ -617,7 +639,7 @@ Definition get_sampled (w : wf) (c : chan) (ts : list Q) : res (list (option Q))
       else if negb (inb c (channels w)) then Err EKey
       else match cv w c with
            | Some v => OK (map (fun _ => Some v) ts)
-           | None => if zdiv w c then Err EZeroDiv else OK (sample_vec w c ts)
+           | None => if zdiv w c then Err EZeroDiv else if kerr w c then Err EKey else OK (sample_vec w c ts)
            end
   end.
 
